@@ -29,7 +29,8 @@ def handle (op real : String) : Verdict := Id.run do
   let baseMs := (get "B:").toNat?.getD 1
   let maxMs := (get "M:").toNat?.getD 3000
   -- a suffix `e`: the attempts are turned away by an ERROR answer to STARTUP instead of a closed socket; the loop treats both alike
-  let rounds := (splitNE (get "R:") ",").map fun t => ((t.dropEndWhile (· == 'e')).toString.toNat?).getD 0
+  -- (a suffix `s`: the attempts are accepted and never answered; the harness counts the delay from the expiry of the connect timeout)
+  let rounds := (splitNE (get "R:") ",").map fun t => ((t.dropEndWhile (fun c => c == 'e' || c == 's')).toString.toNat?).getD 0
   let sig := s!"{get "K:"}-b{baseMs}-m{maxMs}-r{rounds.length}-k{rounds.foldl Nat.max 0}"
   let rt := splitNE real " "
   if let some st := rt.find? (·.startsWith "stuck:") then
